@@ -34,7 +34,7 @@ EXT = {"export": ".export", "tigerxml": ".xml", "brackets": ".mrg", "discobracke
 
 
 def budget(tier):
-    return 2500 if tier == "quick" else 200000
+    return 4000 if tier == "quick" else 200000
 
 
 def gen_dopts(rng, fmt):
